@@ -52,6 +52,11 @@ const (
 	// F2: the record type is not covered by the record CRC: a single corrupted type byte turns a
 	// record into one of another type whose payload is then decoded and returned as valid data.
 	findingTypeByte = "C16-F2"
+	// F3: a zero length field reads as "end of the data of this file" (preallocated space). When the
+	// length field of the FIRST record of a segment that is not the last one is zeroed, the decoder skips
+	// that whole segment; if a read starts in it, the next segment's CRC record is accepted as a fresh start
+	// (the running CRC is still 0) and ReadAll returns nil error without the skipped segment's entries.
+	findingZeroLenHead = "C16-F3"
 )
 
 func excluded(id string) bool {
@@ -60,11 +65,11 @@ func excluded(id string) bool {
 }
 
 type stats struct {
-	images, mixed, repairs, corruptions, cuts, points, exhaustivePoints int64
-	tornStraddle, corruptErr, corruptPrefix, corruptFull, corruptPanic  int64
-	snapCorruptions, snapFallbacks, dupImages, oldVariant, maxDirty     int64
-	overwrites, reopens, snapsTaken, unsyncedSaves, contWithCut         int64
-	recrashes, appReplays                                               int64
+	images, mixed, repairs, corruptions, cuts, points, exhaustivePoints                  int64
+	tornStraddle, corruptErr, corruptPrefix, corruptFull, corruptPanic, corruptSkippedF3 int64
+	snapCorruptions, snapFallbacks, dupImages, oldVariant, maxDirty                      int64
+	overwrites, reopens, snapsTaken, unsyncedSaves, contWithCut                          int64
+	recrashes, appReplays                                                                int64
 }
 
 type savedSnap struct {
@@ -98,6 +103,7 @@ type run struct {
 	excluded        []string
 	zeroExtend      bool
 	skipTypeByte    bool
+	skipZeroLenHead bool
 	labels          map[string]bool
 	segs            map[string]segFrom // segment file name -> first logical record / header hard state
 	handedOver      int                // >0 while lost records are being re-saved: records handed to the WAL so far
@@ -134,6 +140,10 @@ func exec(c Case) kit.Outcome {
 		r.skipTypeByte = true
 		r.excluded = append(r.excluded, findingTypeByte)
 	}
+	if excluded(findingZeroLenHead) {
+		r.skipZeroLenHead = true
+		r.excluded = append(r.excluded, findingZeroLenHead)
+	}
 	func() {
 		defer func() {
 			if p := recover(); p != nil {
@@ -162,6 +172,7 @@ func exec(c Case) kit.Outcome {
 	kit.C.Label("corruptions-strict-prefix", r.st.corruptPrefix)
 	kit.C.Label("corruptions-unnoticed-harmless", r.st.corruptFull)
 	kit.C.Label("corruptions-panic", r.st.corruptPanic)
+	kit.C.Label("corruptions-skipped-known-finding-F3", r.st.corruptSkippedF3)
 	kit.C.Label("snap-corruptions", r.st.snapCorruptions)
 	kit.C.Label("snap-fallbacks", r.st.snapFallbacks)
 	kit.C.Label("continuations-with-cut", r.st.contWithCut)
